@@ -422,8 +422,12 @@ func c13Mine(c *Ctx, rel string) {
 	var send *ssa.Send
 	for _, blk := range worker.Blocks {
 		for _, ins := range blk.Instrs {
-			if ci, ok := ins.(ssa.CallInstruction); ok && ana.CalleeName(ci.Common()) == "sync/atomic.StoreUint32" {
-				storeDone = ci
+			if ci, ok := ins.(ssa.CallInstruction); ok {
+				// done is non-zero afterwards: Store(done, 1), or CompareAndSwap(done, 0, 1) (if it fails done was non-zero already)
+				t := ana.NewBuilder(c.P, worker).CallTermAt(ci)
+				if matches("call<sync/atomic.StoreUint32>(free<done>, 1)", t) || matches("call<sync/atomic.CompareAndSwapUint32>(free<done>, 0, 1)", t) {
+					storeDone = ci
+				}
 			}
 			if s, ok := ins.(*ssa.Send); ok {
 				send = s
